@@ -179,6 +179,21 @@ Definition Mmacro (m : gLefMacro dec bytes unit Z) : lef_macro :=
                   (option_map Mpoint (gLefMacro_origin dec bytes m)) (gLefMacro_size dec bytes m) (option_map (map MLefSymmetry) (gLefMacro_symmetry dec bytes m))
                   (gLefMacro_site dec bytes m) (option_map MLefDefSource (gLefMacro_source dec bytes m)) (gLefMacro_eeq dec bytes m) (gLefMacro_fixed_mask dec bytes m)
                   (map Mproperty (gLefMacro_properties dec bytes m)) (option_map (map Mdgeoms) (gLefMacro_density dec bytes m)).
+(** the family lef_parse_via *)
+Definition Mrowcol (r : gLefRowCol dec unit Z) : lef_rowcol := Build_lef_rowcol (gLefRowCol_rows dec r) (gLefRowCol_cols dec r).
+Definition Moffset (o : gLefOffset dec unit Z) : lef_offset := Build_lef_offset (gLefOffset_bot_x dec o) (gLefOffset_bot_y dec o) (gLefOffset_top_x dec o) (gLefOffset_top_y dec o).
+Definition Mgen_via (g : gLefGeneratedViaDef dec bytes unit Z) : lef_gen_via :=
+  Build_lef_gen_via (gLefGeneratedViaDef_via_rule_name dec bytes g) (gLefGeneratedViaDef_cut_size_x dec bytes g) (gLefGeneratedViaDef_cut_size_y dec bytes g)
+    (gLefGeneratedViaDef_bot_metal_layer dec bytes g) (gLefGeneratedViaDef_cut_layer dec bytes g) (gLefGeneratedViaDef_top_metal_layer dec bytes g)
+    (gLefGeneratedViaDef_cut_spacing_x dec bytes g) (gLefGeneratedViaDef_cut_spacing_y dec bytes g)
+    (gLefGeneratedViaDef_bot_enc_x dec bytes g) (gLefGeneratedViaDef_bot_enc_y dec bytes g) (gLefGeneratedViaDef_top_enc_x dec bytes g) (gLefGeneratedViaDef_top_enc_y dec bytes g)
+    (option_map Mrowcol (gLefGeneratedViaDef_rowcol dec bytes g)) (option_map Mpoint (gLefGeneratedViaDef_origin dec bytes g)) (option_map Moffset (gLefGeneratedViaDef_offset dec bytes g)).
+Definition Mfixed_via (f : gLefFixedViaDef dec bytes unit Z) : lef_fixed_via :=
+  Build_lef_fixed_via (gLefFixedViaDef_resistance_ohms dec bytes f) (map Mvia_layer_geoms (gLefFixedViaDef_layers dec bytes f)).
+Definition Mvia_data (d : gLefViaDefData dec bytes unit Z) : lef_via_data :=
+  match d with gLefViaDefData_Fixed _ _ f => VdFixed (Mfixed_via f) | gLefViaDefData_Generated _ _ g => VdGenerated (Mgen_via g) end.
+Definition Mvia_def (v : gLefViaDef dec bytes unit Z) : lef_via_def :=
+  Build_lef_via_def (gLefViaDef_name dec bytes v) (gLefViaDef_default dec bytes v) (Mvia_data (gLefViaDef_data dec bytes v)).
 
 (** the reader as it is now in /repo, for the ties of the functions whose model carries a variant flag *)
 Definition cfr_now (cf : cfg) : Prop := c_points_to_semi cf = false.
@@ -212,6 +227,9 @@ Definition x_try_new (n : dec) : lm Z := lmU (lift (dbu_try_new cf n)).
 Definition x_session_lef_version : lm dec := fun s => Ok (p_ver s, s).
 Definition x_dec_lt (a b : dec) : bool := dec_gt b a.
 Definition x_parse_density : lm (list (gLefDensityGeometries dec bytes unit Z)) := lmG (map Gdgeoms) (parse_density cf src).
+(** `txt.chars().collect::<Vec<char>>()`: the characters (code points) of the text, [chars_of] *)
+Definition x_chars (s : bytes) : lm (list Z) := lm_ret _ (chars_of s).
+Definition x_collect (l : list Z) : lm (list Z) := lm_ret _ l.
 Definition x_enum {T G : Type} (g : T -> G) (from_str : bytes -> option T) : lm G := lmG g (parse_enum cf src from_str).
 
 (** * the translated functions at this reading *)
@@ -255,5 +273,10 @@ Definition g_parse_pin_loop1 := g_LefParser_parse_pin_loop1 (lm_xops cf src) dec
 Definition g_parse_pin := g_LefParser_parse_pin (lm_xops cf src) dec bytes x_get x_put x_build_err lm_nofuel x_advance x_expect x_expect_key x_get_key x_peek_token x_matches (x_enum GLefAntennaModel LefAntennaModel_from_str) (x_enum GLefPinShape LefPinShape_from_str) (x_enum GLefPinUse LefPinUse_from_str) (x_enum GLefPortClass LefPortClass_from_str) x_parse_ident x_parse_number x_parse_point x_peek_key x_txt bytes_eqb x_fuel.
 Definition g_parse_macro_loop1 := g_LefParser_parse_macro_loop1 (lm_xops cf src) dec bytes x_get x_put x_build_err lm_nofuel x_dec_lt x_advance x_expect x_expect_key x_get_key x_peek_token x_matches x_parse_density (x_enum GLefAntennaModel LefAntennaModel_from_str) (x_enum GLefBlockClassType LefBlockClassType_from_str) (x_enum GLefCoreClassType LefCoreClassType_from_str) (x_enum GLefDefSource LefDefSource_from_str) (x_enum GLefEndCapClassType LefEndCapClassType_from_str) (x_enum GLefMacroClassName LefMacroClassName_from_str) (x_enum GLefOrient LefOrient_from_str) (x_enum GLefPadClassType LefPadClassType_from_str) (x_enum GLefPinShape LefPinShape_from_str) (x_enum GLefPinUse LefPinUse_from_str) (x_enum GLefPortClass LefPortClass_from_str) (x_enum GLefSymmetry LefSymmetry_from_str) x_parse_ident x_parse_number x_parse_point x_peek_key x_txt bytes_eqb V5P4 x_fuel x_session_lef_version.
 Definition g_parse_macro := g_LefParser_parse_macro (lm_xops cf src) dec bytes x_get x_put x_build_err lm_nofuel x_dec_lt x_advance x_expect x_expect_key x_get_key x_peek_token x_matches x_parse_density (x_enum GLefAntennaModel LefAntennaModel_from_str) (x_enum GLefBlockClassType LefBlockClassType_from_str) (x_enum GLefCoreClassType LefCoreClassType_from_str) (x_enum GLefDefSource LefDefSource_from_str) (x_enum GLefEndCapClassType LefEndCapClassType_from_str) (x_enum GLefMacroClassName LefMacroClassName_from_str) (x_enum GLefOrient LefOrient_from_str) (x_enum GLefPadClassType LefPadClassType_from_str) (x_enum GLefPinShape LefPinShape_from_str) (x_enum GLefPinUse LefPinUse_from_str) (x_enum GLefPortClass LefPortClass_from_str) (x_enum GLefSymmetry LefSymmetry_from_str) x_parse_ident x_parse_number x_parse_point x_peek_key x_txt bytes_eqb V5P4 x_fuel x_session_lef_version.
+Definition g_parse_bus_bit_chars := g_LefParser_parse_bus_bit_chars (lm_xops cf src) (list Z) bytes x_collect x_expect x_expect_key x_txt x_chars.
+Definition g_parse_divider_char := g_LefParser_parse_divider_char (lm_xops cf src) (list Z) bytes x_collect x_expect x_expect_key x_txt x_chars.
+Definition g_parse_via_loop1 := g_LefParser_parse_via_loop1 (lm_xops cf src) dec bytes x_advance x_expect x_parse_ident x_parse_number x_parse_point x_peek_key.
+Definition g_parse_via_loop2 := g_LefParser_parse_via_loop2 (lm_xops cf src) dec bytes x_get x_put x_build_err lm_nofuel x_advance x_expect x_expect_key x_get_key x_peek_token x_matches x_parse_ident x_parse_number x_parse_point x_peek_key x_fuel.
+Definition g_parse_via := g_LefParser_parse_via (lm_xops cf src) dec bytes x_get x_put x_build_err lm_nofuel x_advance x_expect x_expect_key x_get_key x_peek_token x_matches x_parse_ident x_parse_number x_parse_point x_peek_key x_txt bytes_eqb x_fuel.
 (* END instantiation lines *)
 End Reading.
